@@ -693,50 +693,47 @@ func runFD07(p *Prog, r *RuleRun) {
 		r.Unknown("anchor:StoreLogs", "?", "(*WAL).StoreLogs not found")
 	} else {
 		found := false
-		slLive := liveBlocks(sl)
-		for _, b := range sl.Blocks {
-			ifi, ok := b.Instrs[len(b.Instrs)-1].(*ssa.If)
-			if !ok || !slLive[b] {
+		for fn := range p.reachableFuncs(sl) {
+			if pkgRelOf(p, fn) != "" {
 				continue
 			}
-			ne, ok := ifi.Cond.(*ssa.BinOp)
-			if !ok || ne.Op != token.NEQ {
-				continue
-			}
-			add, ok := ne.Y.(*ssa.BinOp)
-			if !ok || add.Op != token.ADD || fieldLoadName(ne.X) != "Index" {
-				continue
-			}
-			c, ok := add.Y.(*ssa.Const)
-			if !ok || c.Int64() != 1 {
-				continue
-			}
-			// true edge returns an error
-			isErr := false
-			for _, ins := range b.Succs[0].Instrs {
-				if ret, ok := ins.(*ssa.Return); ok && errLabel(ret.Results[len(ret.Results)-1]) == "error" {
-					isErr = true
-				}
-				if st, ok := ins.(*ssa.Store); ok && errLabel(st.Val) == "error" {
-					isErr = true
-				}
-			}
-			// dominated by last > 0
-			gated := false
-			for _, g := range sl.Blocks {
-				gi, ok := g.Instrs[len(g.Instrs)-1].(*ssa.If)
-				if !ok {
+			fnLive := liveBlocks(fn)
+			for _, b := range fn.Blocks {
+				ifi, ok := b.Instrs[len(b.Instrs)-1].(*ssa.If)
+				if !ok || !fnLive[b] {
 					continue
 				}
-				gt, ok := gi.Cond.(*ssa.BinOp)
-				if ok && gt.Op == token.GTR && gt.X == add.X && g.Succs[0] == b {
-					if z, ok := gt.Y.(*ssa.Const); ok && z.Int64() == 0 {
-						gated = true
+				ne, ok := ifi.Cond.(*ssa.BinOp)
+				if !ok || ne.Op != token.NEQ {
+					continue
+				}
+				add, ok := ne.Y.(*ssa.BinOp)
+				if !ok || add.Op != token.ADD || fieldLoadName(ne.X) != "Index" {
+					continue
+				}
+				c, ok := add.Y.(*ssa.Const)
+				if !ok || c.Int64() != 1 {
+					continue
+				}
+				// true edge returns an error
+				isErr := blockRejects(b.Succs[0])
+				// reached only through last > 0 (the same `last` value)
+				gated := false
+				for _, g := range fn.Blocks {
+					gi, ok := g.Instrs[len(g.Instrs)-1].(*ssa.If)
+					if !ok {
+						continue
+					}
+					gt, ok := gi.Cond.(*ssa.BinOp)
+					if ok && gt.Op == token.GTR && gt.X == add.X && g.Succs[0] == b {
+						if z, ok := gt.Y.(*ssa.Const); ok && z.Int64() == 0 {
+							gated = true
+						}
 					}
 				}
-			}
-			if isErr && gated {
-				found = true
+				if isErr && gated {
+					found = true
+				}
 			}
 		}
 		r.Check(found, funcDisplay(sl)+":monotonic", p.Position(sl.Pos()), "StoreLogs refuses exactly index != last+1 when the log is non-empty (last > 0)",
